@@ -4,6 +4,8 @@ Generated from the registries of the current tree (vf/gencodec.py): every comman
 sub-event and per-command Command Complete; hand-written conditions for the data packets, the two
 commands with hand-written parsers, vendor events and unknown opcodes / event codes.
 """
+import struct
+
 from vf.e1 import harness, registered
 from vf import flags as _flags
 from vf import gencodec
@@ -188,6 +190,28 @@ def ext_scan_params(own: int, pol: int, a0: int, a1: int, a2: int, a3: int, a4: 
         return False
     q2 = cls(own_address_type=q.own_address_type, scanning_filter_policy=q.scanning_filter_policy, scanning_phys=q.scanning_phys,
              scan_types=q.scan_types, scan_intervals=q.scan_intervals, scan_windows=q.scan_windows)
+    return bytes(q2) == raw
+
+
+@harness(pre=['0 <= pol <= 255 and 0 <= own <= 3 and 0 <= pt <= 1 and 0 <= v0 <= 0xFFFF and 0 <= v1 <= 0xFFFF and 0 <= v2 <= 0xFFFF and 0 <= v3 <= 0xFFFF and 0 <= a0 <= 255'],
+         family='custom', kernels=('bumble.hci.HCI_LE_Extended_Create_Connection_Command.from_parameters', 'bumble.hci.HCI_LE_Extended_Create_Connection_Command.__init__'),
+         grid={'phys': [1, 2, 3, 4, 5, 6, 7]}, twin=True,
+         bounds='LE Extended Create Connection: every initiating_phys mask 1..7 (contiguous or not; 1..3 parameter blocks), filter policy, address bytes and four 16-bit values per block symbolic: bytes -> command -> bytes and fields -> bytes -> fields are identities')
+def ext_create_connection(pol: int, own: int, pt: int, v0: int, v1: int, v2: int, v3: int, a0: int, phys: int) -> bool:
+    n = bin(phys).count('1')
+    blocks = b''.join(struct.pack('<HHHHHHHH', v0, v1, v2, v3, j, 10 + j, v1, v0) for j in range(n))
+    params = _B(pol, own, pt, a0, 2, 3, 4, 5, 6, phys) + blocks
+    cls = hci.HCI_LE_Extended_Create_Connection_Command
+    raw = _B(1, cls.op_code & 0xFF, cls.op_code >> 8, len(params)) + params
+    q = hci.HCI_Packet.from_bytes(raw)
+    if type(q) is not cls or bytes(q) != raw:
+        return False
+    if q.initiating_phys != phys or q.scan_intervals != [v0] * n or q.connection_interval_maxs != [v3] * n or q.max_latencies != list(range(n)) or q.max_ce_lengths != [v0] * n:
+        return False
+    q2 = cls(initiator_filter_policy=q.initiator_filter_policy, own_address_type=q.own_address_type, peer_address_type=q.peer_address_type, peer_address=q.peer_address,
+             initiating_phys=q.initiating_phys, scan_intervals=q.scan_intervals, scan_windows=q.scan_windows, connection_interval_mins=q.connection_interval_mins,
+             connection_interval_maxs=q.connection_interval_maxs, max_latencies=q.max_latencies, supervision_timeouts=q.supervision_timeouts,
+             min_ce_lengths=q.min_ce_lengths, max_ce_lengths=q.max_ce_lengths)
     return bytes(q2) == raw
 
 
